@@ -15,7 +15,7 @@ pub fn property() -> Property {
     Property {
         id: "C09",
         level: "exploration",
-        rule: "The harness is the web: a generated table (scheme, host, port, request target) -> scripted response (status 200/404/every 3xx code incl. all of 300..399 in the exhaustive generator; 0, 1 or 2 Location fields) served by reactive scripted transports that answer according to the request line actually received. Webs are grown from a start URL by resolving generated Location strings (absolute incl. upper-case scheme/host, explicit default port and fragment; scheme-relative; absolute-path; relative-path with ./.. segments; query-only; fragment-only; missing; unusable: empty authority, broken IPv6 literal, blank in host; non-http schemes ftp/mailto/file/data) with the harness's own RFC 3986 section 5.2 resolver, giving chains, trees and cycles (self loops, 2- and 3-cycles). The expected walk is computed by simulating the table with that resolver; max_redirections in {0,1,2,5,7} (chains also under 2^31-1, 2^31, 2^32-2, 2^32-1), follow_redirects on/off. 'sequential-server': a real loopback origin that serves one connection at a time and lingers until the client closes (chains of 2/3/5 hops, read timeout 1.5 s) - the chain still ends where the server pointed; 'non-http-location-to-a-live-port': ftp/ws/gopher/foo/httpx Locations naming a real loopback listener - error, and the listener sees no connection. Oracle: the sequence of (address dialled, request target) observed equals the expected walk hop by hop; at most max+1 requests; too-many-redirections raised exactly when the (max+1)-th redirect arrives; only 301/302/303/307/308 followed; missing/unusable Location is an error with no further request; Response::status and Response::url (fragment ignored) are those of the last hop. Every walk is performed TWICE on the same PreparedRequest: the second send() must give the reference walk from the original URL with a fresh budget. Non-trivial: at least one redirect response served; distinct = hash(table, start, max, follow).",
+        rule: "The harness is the web: a generated table (scheme, host, port, request target) -> scripted response (status 200/404/every 3xx code incl. all of 300..399 in the exhaustive generator; 0, 1 or 2 Location fields) served by reactive scripted transports that answer according to the request line actually received. Webs are grown from a start URL by resolving generated Location strings (absolute incl. upper-case scheme/host, explicit default port and fragment; scheme-relative; absolute-path; relative-path with ./.. segments; query-only; fragment-only; missing; unusable: empty authority, broken IPv6 literal, blank in host; non-http schemes ftp/mailto/file/data) with the harness's own RFC 3986 section 5.2 resolver, giving chains, trees and cycles (self loops, 2- and 3-cycles). The expected walk is computed by simulating the table with that resolver; max_redirections in {0,1,2,5,7} (chains also under 2^31-1, 2^31, 2^32-2, 2^32-1), follow_redirects on/off. 'sequential-server': a real loopback origin that serves one connection at a time and lingers until the client closes (chains of 2/3/5 hops, read timeout 3 s; three attempts) - the chain still ends where the server pointed; 'non-http-location-to-a-live-port': ftp/ws/gopher/foo/httpx Locations naming a real loopback listener - error, and the listener sees no connection. Oracle: the sequence of (address dialled, request target) observed equals the expected walk hop by hop; at most max+1 requests; too-many-redirections raised exactly when the (max+1)-th redirect arrives; only 301/302/303/307/308 followed; missing/unusable Location is an error with no further request; Response::status and Response::url (fragment ignored) are those of the last hop. Every walk is performed TWICE on the same PreparedRequest: the second send() must give the reference walk from the original URL with a fresh budget. Non-trivial: at least one redirect response served; distinct = hash(table, start, max, follow).",
         assumptions: &["Locations outside the subset on which RFC 3986 and the WHATWG URL standard agree (backslashes, %2e dot segments, IDN hosts, `http:relative`, empty Location, duplicate differing Location fields, non-UTF-8 bytes) are generated for robustness but their walk is not judged"],
         min_nontrivial: |t| t.pick(3_000, 100_000),
         gens,
@@ -499,6 +499,8 @@ fn run_sequential_server(ctx: &mut Ctx, _rng: &mut Rng, index: u64) {
     }
     let hops = [2usize, 3, 5][(index % 3) as usize];
     let status = [302u16, 307][((index / 3) % 2) as usize];
+    // (real threads and a 3 s read timeout: a failure is believed when it reproduces three times)
+    for attempt in 0..3 {
     let listener = match std::net::TcpListener::bind("127.0.0.1:0") {
         Ok(l) => l,
         Err(e) => return ctx.inconclusive(format!("bind failed: {e}")),
@@ -538,7 +540,7 @@ fn run_sequential_server(ctx: &mut Ctx, _rng: &mut Rng, index: u64) {
         }
     });
     let t0 = std::time::Instant::now();
-    let res = attohttpc::get(format!("http://127.0.0.1:{port}/hop0")).read_timeout(std::time::Duration::from_millis(1500)).connect_timeout(std::time::Duration::from_secs(3)).send().map_err(|e| format!("{e:?}")).and_then(|r| {
+    let res = attohttpc::get(format!("http://127.0.0.1:{port}/hop0")).read_timeout(std::time::Duration::from_millis(3000)).connect_timeout(std::time::Duration::from_secs(3)).send().map_err(|e| format!("{e:?}")).and_then(|r| {
         let st = r.status().as_u16();
         let u = r.url().path().to_owned();
         r.text().map(|t| (st, u, t)).map_err(|e| format!("{e:?}"))
@@ -547,14 +549,20 @@ fn run_sequential_server(ctx: &mut Ctx, _rng: &mut Rng, index: u64) {
     stop.store(true, std::sync::atomic::Ordering::Relaxed);
     let _ = handle.join();
     let log = served.lock().unwrap().clone();
-    let descr = format!("chain of {hops} hops ({status}) on an origin that serves one connection at a time and lingers until the client closes; read timeout 1.5 s: {res:?} after {elapsed:?}; served (target, ms the server waited for the client's close): {log:?}");
+    let descr = format!("chain of {hops} hops ({status}) on an origin that serves one connection at a time and lingers until the client closes; read timeout 3 s: {res:?} after {elapsed:?}; served (target, ms the server waited for the client's close): {log:?}");
     ctx.count("sequential_server_chains", 1);
     match &res {
-        Ok((200, path, body)) if *path == format!("/hop{}", hops - 1) && body == "end" => {}
+        Ok((200, path, body)) if *path == format!("/hop{}", hops - 1) && body == "end" => break,
+        _ if attempt < 2 => {
+            ctx.count("sequential_server_failures_rechecked", 1);
+            continue;
+        }
         _ => ctx.violation("chain-does-not-end-where-the-server-pointed:sequential-server", descr.clone()),
     }
+    break;
+    }
     ctx.nontrivial(format!("seqsrv{index}").as_bytes());
-    ctx.sample(|| json!({"gen": "sequential-server", "hops": hops, "elapsed_ms": elapsed.as_millis() as u64}));
+    ctx.sample(|| json!({"gen": "sequential-server", "hops": hops}));
 }
 
 /// a Location with a scheme other than http/https that names a port where something DOES listen
